@@ -374,8 +374,12 @@ func (x *threadCtx) explain(a action, path string, err error, got []string, all 
 	}
 	var want []string
 	if all {
+		// all keys that still have material, newest first. (How a ring with destroyed keys is presented — refused with
+		// ErrKeyDestroyed, as the tree did before 8acc570, or with the destroyed keys skipped — is C06's matter.)
 		for i := len(view.Keys) - 1; i >= 0; i-- {
-			want = append(want, field(view.Keys[i]))
+			if view.Keys[i].State != int(api.KeyDestroyed) {
+				want = append(want, field(view.Keys[i]))
+			}
 		}
 	} else if k := view.key(view.Cur); k != nil {
 		want = []string{field(*k)}
